@@ -1,6 +1,17 @@
 #!/usr/bin/env python3
-"""R-ARMS over pairs: outcome of a two-operand JSON predicate for each of the
-36 kind pairs, by variant specialisation of the function and its closures."""
+"""R-ARMS over pairs: outcome of a two-operand JSON predicate for each of the 36 kind pairs.
+
+`decision_matrix` (C07, C08) reads the matrix off the *decision cases* of the predicate (rules/optnorm.py): for each
+pair of kinds the kinds of both parameters are fixed (`known`), private helpers are inlined (rules/inline.py view),
+public two-value predicates the case delegates to are expanded in place, serde_json's kind tests / accessors are
+answered from the fixed kinds, and every remaining case is *read*: a constant, a comparison of the two payloads
+(doubles of as_f64 / the shared string→number conversion, strings, booleans), or the recursion with an operand
+replaced by a converted value (number of a boolean, string form of a container).  A case that cannot be read makes the
+pair UNREAD (neither pass nor fail).  How the arms are spelled — tuple match, match on one operand plus accessors on
+the other, guards with predicates, helpers — does not matter.
+
+`pair_matrix` (C15's membership equality, which iterates) is the older reading by forcing variants onto places
+(variant specialisation of the function and its closures)."""
 import itertools, re
 from .core import (callee_of, callee_path, strip_refs, strip_payload, show_expr, const_value, expr_mentions, op_const, edge_dominates, bool_edge)
 from .engine import Inconclusive
@@ -167,3 +178,657 @@ def classify(roles, f, unit, restrict, v1, v2, to_string_key, str_to_number_key,
                 return classify(roles, g, gunit, grestrict, v1, v2, to_string_key, str_to_number_key, depth + 1)
         o.kind = "OTHER(%s)" % ",".join(sorted({p.rsplit("::", 1)[-1] for p in paths}))[:80]
     return o
+
+
+# =====================================================================================================================
+# decision-case reading (shape independent)
+# =====================================================================================================================
+from . import optnorm, pathsum        # noqa: E402
+
+KIND_TEST = {"is_null": "Null", "is_boolean": "Bool", "is_number": "Number", "is_string": "String", "is_array": "Array", "is_object": "Object"}
+KIND_ACCESSOR = {"as_null": "Null", "as_bool": "Bool", "as_str": "String", "as_array": "Array", "as_object": "Object", "as_number": "Number"}
+INT_ACCESSOR = re.compile(r"^serde_json::(Number|Value)::(as_i64|as_u64|as_i128|as_u128|is_i64|is_u64|is_f64)$")
+SPELLING = re.compile(r"<serde_json::(Number|Value) as std::cmp::PartialEq(<[^>]*>)?>::(eq|ne)$")
+PEEL = re.compile(r"^(?!serde_json::).*(Deref>::deref|::as_str|::as_ref|::borrow|Clone>::clone|ToOwned>::to_owned)$")
+CMP_NOT = {"Eq": "Ne", "Ne": "Eq", "Lt": "Ge", "Ge": "Lt", "Gt": "Le", "Le": "Gt"}
+
+
+def _peel(e):
+    while True:
+        e = strip_refs(e)
+        if e[0] == "call" and e[1] and not e[1].get("local") and len(e[2]) == 1 and PEEL.search(e[1]["path"]):
+            e = e[2][0]
+            continue
+        if e[0] == "cast" and e[1] in ("Transmute",):
+            return e
+        return e
+
+
+def _ctor(e):
+    """(variant, [operands]) for a serde_json::Value built by aggregate or by the constructor used as a function."""
+    e = strip_refs(e)
+    if e[0] == "agg" and e[1].get("adt") == VALUE and e[1].get("variant"):
+        return e[1]["variant"], list(e[2])
+    if e[0] == "call" and e[1] and len(e[2]) == 1:
+        m = re.search(r"^serde_json::Value::(Null|Bool|Number|String|Array|Object)$", e[1].get("path") or "")
+        if m:
+            return m.group(1), list(e[2])
+    return None
+
+
+class Reader:
+    """Reads the decision cases of `f` for one pair of kinds."""
+
+    def __init__(self, facts, f, kinds, s2n_key, assume_distinct=True, root=None, depth=0):
+        self.facts, self.f, self.kinds, self.s2n, self.distinct = facts, f, kinds, s2n_key, assume_distinct
+        self.root = root or f
+        self.depth = depth
+        self.int_acc = []
+        self.spelling = []
+        self.fcmp = False
+
+    # ---- operands ------------------------------------------------------------------------------------
+    def side(self, e):
+        """("val", p) — parameter p itself; ("payload", p) — the payload of parameter p under its fixed kind."""
+        e = _peel(e)
+        if e[0] == "arg" and e[1] in (1, 2):
+            return ("val", e[1])
+        if e[0] == "field" and e[2] == 0 and isinstance(e[1], tuple) and e[1][0] == "downcast":
+            base = _peel(e[1][1])
+            if base[0] == "arg" and base[1] in (1, 2) and e[1][2] == self.kinds[base[1]]:
+                return ("payload", base[1])
+            # payload of a modelled accessor: as_str(v) / as_bool(v) …
+            src = self.source(e[1][1]) if e[1][2] == "Some" else None
+            if src and src[0] == "acc" and src[3]:
+                return ("payload", src[1])
+        if e[0] == "payload":
+            src = self.source(e[2])
+            if src and src[0] == "acc" and src[3]:
+                return ("payload", src[1])
+        return None
+
+    def source(self, e):
+        """Option-valued sources: ("as_f64", p) | ("s2n", p) | ("from_f64", const|("bool", p)|None) |
+        ("acc", p, kind, holds) — a kind accessor of serde_json answered from the fixed kind | ("int", p)."""
+        e = _peel(e)
+        if e[0] != "call" or not e[1]:
+            return None
+        c = e[1]
+        path = c.get("path") or ""
+        if self.s2n and c.get("key") == self.s2n and len(e[2]) == 1:
+            sd = self.side(e[2][0])
+            if sd and sd[0] == "payload" and self.kinds[sd[1]] == "String":
+                return ("s2n", sd[1])
+            return ("s2n", None)
+        if c.get("local"):
+            return None
+        if path == "serde_json::Number::as_f64" and len(e[2]) == 1:
+            sd = self.side(e[2][0])
+            return ("as_f64", sd[1]) if sd and sd[0] == "payload" and self.kinds[sd[1]] == "Number" else ("as_f64", None)
+        if path == "serde_json::Value::as_f64" and len(e[2]) == 1:
+            sd = self.side(e[2][0])
+            if sd and sd[0] == "val":
+                return ("as_f64", sd[1]) if self.kinds[sd[1]] == "Number" else ("acc", sd[1], "Number", False)
+            return ("as_f64", None)
+        if INT_ACCESSOR.search(path):
+            self.int_acc.append(path)
+            return ("int", None)
+        if path == "serde_json::Number::from_f64" and len(e[2]) == 1:
+            a = strip_refs(e[2][0])
+            while a[0] == "cast" and a[1] in ("IntToFloat", "IntToInt", "FloatToFloat"):
+                a = strip_refs(a[2])
+            if a[0] == "call" and a[1] and re.search(r"From<bool>.*::from$|<bool as std::convert::Into<.*>>::into$", a[1]["path"]) and a[2]:
+                a = strip_refs(a[2][0])
+                while a[0] == "cast" and a[1] in ("IntToFloat", "IntToInt", "FloatToFloat"):
+                    a = strip_refs(a[2])
+            if a[0] == "const":
+                v = const_value(a[1])
+                if isinstance(v, bool):
+                    return ("from_f64", float(v))
+                return ("from_f64", float(v)) if isinstance(v, (int, float)) else ("from_f64", None)
+            sd = self.side(a)
+            if sd and sd[0] == "payload" and self.kinds[sd[1]] == "Bool":
+                return ("from_f64", ("bool", sd[1]))
+            return ("from_f64", None)
+        m = re.search(r"^serde_json::Value::(\w+)$", path)
+        if m and m.group(1) in KIND_ACCESSOR and len(e[2]) == 1:
+            sd = self.side(e[2][0])
+            if sd and sd[0] == "val":
+                return ("acc", sd[1], KIND_ACCESSOR[m.group(1)], self.kinds[sd[1]] == KIND_ACCESSOR[m.group(1)])
+        return None
+
+    def number(self, e):
+        """A double operand of a comparison: the payload of as_f64 / of the string→number conversion of a side."""
+        e = strip_refs(e)
+        src = None
+        if e[0] == "payload":
+            src = self.source(e[2])
+        elif e[0] == "field" and e[2] == 0 and isinstance(e[1], tuple) and e[1][0] == "downcast" and e[1][2] == "Some":
+            src = self.source(e[1][1])
+        if src and src[0] in ("as_f64", "s2n") and src[1]:
+            return src
+        return None
+
+    # ---- boolean expressions ---------------------------------------------------------------------------
+    def boolean(self, v, depth=0):
+        """Reading of a boolean expression: ("const", b) | ("feq", op, A, B) | ("streq", neg) | ("booleq", neg) |
+        ("rec", [operand…], site) | ("spelling",) | ("call", key, args) | ("unread", why)."""
+        v = strip_refs(v)
+        if depth > 6:
+            return ("unread", "nested too deeply")
+        if v[0] == "const" and isinstance(const_value(v[1]), bool):
+            return ("const", const_value(v[1]))
+        if v[0] == "unop" and v[1] == "Not":
+            return self.negate(self.boolean(v[2], depth + 1))
+        if v[0] == "binop" and v[1] in ("BitAnd", "BitOr"):
+            a, b = self.boolean(v[2], depth + 1), self.boolean(v[3], depth + 1)
+            if a[0] == "const" and b[0] == "const":
+                return ("const", (a[1] and b[1]) if v[1] == "BitAnd" else (a[1] or b[1]))
+            for x, y in ((a, b), (b, a)):
+                if x[0] == "const":
+                    if v[1] == "BitAnd":
+                        return y if x[1] else ("const", False)
+                    return ("const", True) if x[1] else y
+            return ("unread", "conjunction of two non-constant tests")
+        if v[0] == "binop" and v[1] in CMP_NOT:
+            opty = v[4] if len(v) > 4 else None
+            if opty in ("f64", "f32"):
+                self.fcmp = True
+                A, B = self.number(v[2]), self.number(v[3])
+                if A and B:
+                    return ("feq", v[1], A, B)
+                return ("fcmp-other", v[1], show_expr(v)[:100])
+            if opty == "bool" and v[1] in ("Eq", "Ne"):
+                a, b = self.side(v[2]), self.side(v[3])
+                if a and b and a[0] == b[0] == "payload" and {a[1], b[1]} == {1, 2}:
+                    return ("booleq", v[1] == "Ne")
+                # a boolean compared with a literal
+                for x, y in ((v[2], v[3]), (v[3], v[2])):
+                    y0 = strip_refs(y)
+                    if y0[0] == "const" and isinstance(const_value(y0[1]), bool):
+                        r = self.boolean(x, depth + 1)
+                        return r if (const_value(y0[1]) == (v[1] == "Eq")) else self.negate(r)
+            return ("unread", "comparison %s" % show_expr(v)[:100])
+        if v[0] == "call" and v[1]:
+            c = v[1]
+            path = c.get("path") or ""
+            if c.get("key") == self.root.key and len(v[2]) == 2:
+                return ("rec", [self.rec_operand(v[2][0], 1), self.rec_operand(v[2][1], 2)], v[3] if len(v) > 3 else None)
+            if c.get("local"):
+                return ("call", c.get("key"), list(v[2]))
+            if path == "std::ptr::eq" or path == "core::ptr::eq":
+                if self.distinct:
+                    return ("const", False)
+                return ("unread", "pointer identity")
+            m = re.search(r"^serde_json::Value::(\w+)$", path)
+            if m and m.group(1) in KIND_TEST and len(v[2]) == 1:
+                sd = self.side(v[2][0])
+                if sd and sd[0] == "val":
+                    return ("const", self.kinds[sd[1]] == KIND_TEST[m.group(1)])
+            if INT_ACCESSOR.search(path):
+                self.int_acc.append(path)
+                return ("int-test", path)
+            if SPELLING.search(path) or any(SPELLING.search(fw.get("path") or "") for fw in c.get("fwd") or []):
+                self.spelling.append(path)
+                return ("spelling",)
+            mm = re.search(r"PartialEq.*::(eq|ne)$", path)
+            if mm and len(v[2]) == 2:
+                neg = mm.group(1) == "ne"
+                A, B = self.number(v[2][0]), self.number(v[2][1])
+                if A and B:
+                    self.fcmp = True
+                    return ("feq", "Ne" if neg else "Eq", A, B)
+                # doubles compared through an ordering: `a.total_cmp(&b) == Equal` tells +0 from -0; `a.partial_cmp(&b) == Some(Equal)` is a == b
+                for X, Y in ((v[2][0], v[2][1]), (v[2][1], v[2][0])):
+                    X0 = strip_refs(X)
+                    if X0[0] == "call" and X0[1] and re.search(r"::(total_cmp|partial_cmp|cmp)$", X0[1]["path"]) and len(X0[2]) == 2 and self.number(X0[2][0]) and self.number(X0[2][1]):
+                        self.fcmp = True
+                        Y0 = strip_refs(Y)
+                        if Y0[0] == "agg" and Y0[1].get("variant") == "Some" and Y0[2]:
+                            Y0 = strip_refs(Y0[2][0])
+                        ordv = Y0[1].get("variant") if Y0[0] == "agg" else None
+                        if X0[1]["path"].endswith("::partial_cmp") and ordv == "Equal":
+                            return ("feq", "Ne" if neg else "Eq", self.number(X0[2][0]), self.number(X0[2][1]))
+                        return ("fcmp-other", "%s==%s" % (X0[1]["path"].rsplit("::", 1)[1], ordv), show_expr(v)[:100])
+                oa, ob = self.option(v[2][0]), self.option(v[2][1])
+                if oa is not None and ob is not None:
+                    # equality of two Options whose state is known
+                    if oa[0] != ob[0]:
+                        return ("const", neg)
+                    if oa[0] == "None":
+                        return ("const", not neg)
+                    r = self.payload_eq(oa[1], ob[1])
+                    return self.negate(r) if neg else r
+                if oa is None and ob is None:
+                    r = self.payload_eq(v[2][0], v[2][1])
+                    if r[0] != "unread":
+                        return self.negate(r) if neg else r
+                return ("unread", "equality %s" % show_expr(v)[:100])
+            mo = re.search(r"^std::option::Option::<.*>::(is_some|is_none)$", path)
+            if mo and v[2]:
+                o = self.option(v[2][0])
+                if o is not None:
+                    return ("const", (o[0] == "Some") == (mo.group(1) == "is_some"))
+        return ("unread", "value %s" % show_expr(v)[:100])
+
+    def option(self, e):
+        """("Some", payload expr) / ("None",) when the state of the Option-valued e is known, else None."""
+        e0 = strip_refs(e)
+        if e0[0] == "agg" and e0[1].get("variant") == "Some" and e0[2]:
+            return ("Some", e0[2][0])
+        if e0[0] == "agg" and e0[1].get("variant") == "None":
+            return ("None",)
+        src = self.source(e0)
+        if src and src[0] == "acc":
+            return ("Some", ("payload", pathsum.canon(e0), e0)) if src[3] else ("None",)
+        return None
+
+    def payload_eq(self, a, b):
+        sa, sb = self.side(a), self.side(b)
+        if sa and sb and sa[0] == sb[0] == "payload" and {sa[1], sb[1]} == {1, 2} and self.kinds[1] == self.kinds[2]:
+            if self.kinds[1] == "String":
+                return ("streq", False)
+            if self.kinds[1] == "Bool":
+                return ("booleq", False)
+            if self.kinds[1] == "Number":
+                self.spelling.append("Number == Number")
+                return ("spelling",)
+        return ("unread", "equality of %s and %s" % (show_expr(strip_refs(a))[:50], show_expr(strip_refs(b))[:50]))
+
+    @staticmethod
+    def negate(r):
+        if r[0] == "const":
+            return ("const", not r[1])
+        if r[0] in ("streq", "booleq"):
+            return (r[0], not r[1])
+        if r[0] == "feq":
+            return ("feq", CMP_NOT[r[1]], r[2], r[3])
+        if r[0] == "rec":
+            return ("unread", "negated recursion")
+        return r if r[0] == "unread" else ("unread", "negation of %s" % (r[0],))
+
+    def rec_operand(self, e, pos):
+        """What the recursion is given at position pos: ("same", p) | ("num-of-bool", source, inner) |
+        ("str-of", p|None, how, inner) | ("conv", variant, inner) | ("other", text)."""
+        sd = self.side(e)
+        if sd and sd[0] == "val":
+            return ("same", sd[1])
+        ct = _ctor(e)
+        if ct:
+            var, ops = ct
+            inner = strip_refs(ops[0]) if ops else None
+            if var == "Number" and inner is not None:
+                src = None
+                if inner[0] == "payload":
+                    src = self.source(inner[2])
+                elif inner[0] == "field" and inner[2] == 0 and inner[1][0] == "downcast" and inner[1][2] == "Some":
+                    src = self.source(inner[1][1])
+                return ("num", src, inner)
+            if var == "String" and inner is not None and inner[0] == "call" and inner[1]:
+                how = inner[1].get("key") if inner[1].get("local") else inner[1].get("path")
+                s0 = self.side(inner[2][0]) if inner[2] else None
+                return ("str-of", s0[1] if s0 and s0[0] == "val" else None, how, inner)
+            return ("conv", var, inner)
+        return ("other", show_expr(strip_refs(e))[:80])
+
+    # ---- atoms -------------------------------------------------------------------------------------------
+    def atom(self, key, val, ex):
+        """("drop",) infeasible | ("skip",) decided by the model | ("bool", p, truth) the boolean payload of side p |
+        ("src", source, state) | ("cmp", reading, truth) | ("unknown", text)"""
+        if key[0] == "variant":
+            if ex is None:
+                return ("unknown", key[1][:80])
+            src = self.source(ex)
+            if src is None:
+                return ("unknown", show_expr(strip_refs(ex))[:80])
+            if src[0] == "acc":
+                return ("skip",) if (val == "Some") == src[3] else ("drop",)
+            if src[0] == "from_f64":
+                if isinstance(src[1], float) or (isinstance(src[1], tuple) and src[1][0] == "bool"):
+                    if src[1] == src[1] and src[1] not in (float("inf"), float("-inf")):     # finite: always Some
+                        return ("skip",) if val == "Some" else ("drop",)
+                return ("src", src, val)
+            if src[0] == "int":
+                return ("src", src, val)
+            return ("src", src, val)
+        if key[0] in ("cmp", "pure", "expr", "site"):
+            if ex is None:
+                return ("unknown", str(key)[:100])
+            x = optnorm.normalise(strip_refs(ex))
+            sd = self.side(x)
+            if sd and sd[0] == "payload" and self.kinds[sd[1]] == "Bool" and isinstance(val, bool):
+                return ("bool", sd[1], val)
+            truth = val
+            if key[0] == "cmp":
+                # the atom is about the canonicalised comparison; rebuild it from the key's polarity
+                x0 = strip_refs(x)
+                if x0[0] == "binop":
+                    op = x0[1]           # canonical comparison stored by pathsum: its truth is the atom's value
+                    r = self.boolean(x0)
+                    if r[0] == "const":
+                        return ("skip",) if r[1] == truth else ("drop",)
+                    # a boolean payload compared with a literal
+                    for a_, b_ in ((x0[2], x0[3]), (x0[3], x0[2])):
+                        sa = self.side(a_)
+                        b0 = strip_refs(b_)
+                        if sa and sa[0] == "payload" and self.kinds[sa[1]] == "Bool" and b0[0] == "const" and isinstance(const_value(b0[1]), bool) and op in ("Eq", "Ne"):
+                            return ("bool", sa[1], truth == (const_value(b0[1]) == (op == "Eq")))
+                    return ("cmp", r, truth)
+                return ("unknown", show_expr(x0)[:80])
+            r = self.boolean(x)
+            if r[0] == "const":
+                return ("skip",) if r[1] == truth else ("drop",)
+            if r[0] == "unread":
+                return ("unknown", r[1])
+            return ("cmp", r, truth)
+        return ("unknown", str(key)[:100])
+
+    # ---- cases → rows -----------------------------------------------------------------------------------
+    def known(self, pe, adt):
+        if adt == VALUE:
+            x = _peel(pe)
+            if x[0] == "arg" and x[1] in (1, 2):
+                return self.kinds[x[1]]
+        return None
+
+    def rows(self, body, marks=None, depth=0):
+        """[(atoms, reading)] of `body`; with `marks` = {param: caller expression} the body is read in its caller's terms."""
+        env = {i: ("mark", i) for i in marks} if marks else None
+
+        def sub(e):
+            return _subst(e, marks) if marks else e
+
+        def leaks(e):
+            return bool(marks) and expr_mentions(e, lambda y: y[0] == "arg")
+        cs = optnorm.decision_cases(self.facts, body, known=lambda pe, adt: self.known(sub(pe), adt), env=env)
+        if cs is None:
+            raise Unread("%s has loops or too many paths to summarise" % body.key.split("::", 1)[1])
+        out = []
+        for conds, v, p in cs:
+            alts = [[]]
+            dead = False
+            for key, val in conds.items():
+                ex = (cs.exprs or {}).get(key)
+                if ex is None:
+                    ex = optnorm.SRC_EXPRS.get(key)
+                if ex is not None:
+                    if leaks(ex):
+                        raise Unread("a condition of %s is not expressed in its parameters" % body.key.split("::", 1)[1])
+                    ex = sub(ex)
+                a = self.atom(key, val, ex)
+                if a[0] == "drop":
+                    dead = True
+                    break
+                if a[0] == "skip":
+                    continue
+                if a[0] == "cmp" and a[1][0] == "call":
+                    # a two-valued test made by another function of the crate: read that function in place
+                    subrows = self.expand(a[1], depth)
+                    if subrows is None:
+                        alts = [x + [("unknown", "test by %s" % a[1][1].split("::", 1)[1])] for x in alts]
+                        continue
+                    nxt = []
+                    for (a2, r2) in subrows:
+                        if r2[0] == "const":
+                            if r2[1] == a[2]:
+                                nxt.extend(x + a2 for x in alts)
+                        else:
+                            nxt.extend(x + a2 + [("cmp", r2, a[2])] for x in alts)
+                    alts = nxt
+                    if not alts:
+                        dead = True
+                        break
+                    continue
+                alts = [x + [a] for x in alts]
+            if dead:
+                continue
+            if leaks(v):
+                raise Unread("a result of %s is not expressed in its parameters" % body.key.split("::", 1)[1])
+            r = self.boolean(optnorm.normalise(strip_refs(sub(v))))
+            if r[0] == "call":
+                subrows = self.expand(r, depth)
+                if subrows is None:
+                    r = ("unread", "result of %s" % r[1].split("::", 1)[1])
+                else:
+                    for atoms in alts:
+                        for (a2, r2) in subrows:
+                            out.append((atoms + a2, r2))
+                    continue
+            for atoms in alts:
+                out.append((atoms, r))
+        return out
+
+    def expand(self, call, depth):
+        key, args = call[1], call[2]
+        g = self.facts.body(key)
+        it = self.facts.items.get(key, {})
+        if g is None or depth >= 3 or it.get("output") != "bool" or key == self.s2n:
+            return None
+        return self.rows(g, marks={i + 1: a for i, a in enumerate(args)}, depth=depth + 1)
+
+
+class Unread(Exception):
+    pass
+
+
+def _subst(e, marks):
+    if not isinstance(e, tuple):
+        return e
+    if e and e[0] == "mark":
+        return marks[e[1]]
+    out = []
+    for x in e:
+        if isinstance(x, tuple):
+            out.append(_subst(x, marks))
+        elif isinstance(x, list):
+            out.append([_subst(y, marks) if isinstance(y, tuple) else y for y in x])
+        else:
+            out.append(x)
+    return tuple(out)
+
+
+def _fold(rows):
+    """`if a == b { true } else { false }` (a comparison used as a branch) is the comparison itself."""
+    plain, groups = [], {}
+    for atoms, r in rows:
+        cm = [a for a in atoms if a[0] == "cmp"]
+        if not cm:
+            plain.append((atoms, r))
+            continue
+        if len(cm) > 1 or r[0] != "const":
+            plain.append((atoms + [("unknown", "several comparisons decide this case")], r))
+            continue
+        rest = tuple(sorted(repr(a) for a in atoms if a[0] != "cmp"))
+        groups.setdefault((rest, repr(cm[0][1])), {"atoms": [a for a in atoms if a[0] != "cmp"], "reading": cm[0][1], "map": {}})["map"].setdefault(cm[0][2], set()).add(r[1])
+    for g in groups.values():
+        mp = g["map"]
+        if mp.get(True) == {True} and mp.get(False) == {False}:
+            plain.append((g["atoms"], g["reading"]))
+        elif mp.get(True) == {False} and mp.get(False) == {True}:
+            plain.append((g["atoms"], Reader.negate(g["reading"])))
+        elif len(mp) == 2 and mp.get(True) == mp.get(False) and len(mp[True]) == 1:
+            plain.append((g["atoms"], ("const", next(iter(mp[True])))))
+        else:
+            plain.append((g["atoms"] + [("unknown", "a comparison decides only part of this case")], ("const", None)))
+    return plain
+
+
+def _view(facts, f, stop):
+    """`facts` with the private helpers that `f` reaches (not through `stop`) inlined at their call sites."""
+    from . import inline
+    try:
+        cands = set(inline.candidates(facts.path))
+    except Exception:
+        return facts
+    seen, todo, helpers = set(), [f.key], set()
+    while todo:
+        k = todo.pop()
+        for b in facts.fns():
+            if b.key == k or b.key.startswith(k + "::{closure#"):
+                for _, t in b.calls():
+                    c = callee_of(t)
+                    if c and c.get("local") and c.get("key") and c["key"] not in seen and c["key"] not in stop and c["key"] != f.key:
+                        seen.add(c["key"])
+                        if c["key"] in cands:
+                            helpers.add(c["key"])
+                            todo.append(c["key"])
+    if not helpers:
+        return facts
+    already = list((facts.inlined or {}).get("helpers", [])) if getattr(facts, "inlined", None) else []
+    try:
+        v = inline.load_view(facts.path, sorted(set(already) | helpers))
+    except Exception:
+        return facts
+    return v if v.body(f.key) is not None else facts
+
+
+def decision_matrix(roles, f, str_to_number_key=None, to_string_key=None, assume_distinct=True):
+    """{(kind1, kind2): Outcome} read off the decision cases.  Outcome.kind as in spec/arms/*.json, or UNREAD(why)."""
+    facts = roles.facts
+    stop = {k for k in (str_to_number_key, to_string_key) if k}
+    if to_string_key is None:
+        for k, it in facts.items.items():
+            if it.get("output") == "std::string::String" and it.get("inputs") == ["&serde_json::Value"]:
+                stop.add(k)
+    view = _view(facts, f, stop)
+    fv = view.body(f.key)
+    res = {}
+    for v1, v2 in itertools.product(KINDS, KINDS):
+        rd = Reader(view, fv, {1: v1, 2: v2}, str_to_number_key, assume_distinct)
+        o = Outcome()
+        try:
+            rows = _fold(rd.rows(fv))
+            _classify(rd, rows, o)
+        except Unread as e:
+            o.kind = "UNREAD(%s)" % e
+        o.detail.update({"int_accessors": list(rd.int_acc), "value_eq": list(rd.spelling), "view": (getattr(view, "inlined", None) or {}).get("helpers", [])})
+        res[(v1, v2)] = o
+    # a pair that only re-dispatches with its operands unchanged (typically swapped) is decided as the pair it re-dispatches to
+    for _ in range(2):
+        for k, o in list(res.items()):
+            recs = o.detail.get("rec") or []
+            if o.kind.startswith("REC:") and recs and all(all(op[0] == "same" for op in r["operands"]) for r in recs):
+                targets = {r["target"] for r in recs}
+                if len(targets) == 1:
+                    tk = next(iter(targets))
+                    if tk != k and tk in res and not res[tk].kind.startswith("REC:"):
+                        o2 = Outcome()
+                        o2.kind = res[tk].kind
+                        o2.detail = dict(res[tk].detail)
+                        o2.detail["via"] = "re-dispatch to %s,%s" % tk
+                        if any(r["operands"][0] == ("same", 2) for r in recs):
+                            o2.kind = re.sub(r"\((\w+),(\w+)\)", lambda mm: "(%s,%s)" % (mm.group(2), mm.group(1)), o2.kind)
+                        res[k] = o2
+    return res
+
+
+def _show_atoms(atoms):
+    out = []
+    for a in atoms:
+        if a[0] == "bool":
+            out.append("bool payload of operand %d is %s" % (a[1], a[2]))
+        elif a[0] == "src":
+            out.append("%s is %s" % ("%s(operand %s)" % (a[1][0], a[1][1]) if a[1][0] != "from_f64" else "from_f64(%s)" % (a[1][1],), a[2]))
+        elif a[0] == "unknown":
+            out.append("? " + a[1])
+        else:
+            out.append(str(a[:2])[:60])
+    return ", ".join(out)
+
+
+def _classify(rd, rows, o):
+    kinds = rd.kinds
+    o.detail["rows"] = ["%s ⇒ %s" % (_show_atoms(a) or "always", (r[0],) + tuple(x for x in r[1:] if not isinstance(x, (list, tuple)) or r[0] in ("feq",))) for a, r in rows][:12]
+    if not rows:
+        o.kind = "UNREAD(no feasible case)"
+        return
+    if rd.spelling or any(r[0] == "spelling" for _, r in rows):
+        o.kind = "SPELLING-EQ"
+        return
+    if rd.int_acc:
+        o.kind = "MIXED-INT/FLOAT" if rd.fcmp else "INT-EQ"
+        return
+    unread = [r for _, r in rows if r[0] in ("unread", "call", "int-test")]
+    unknown = [a for atoms, _ in rows for a in atoms if a[0] == "unknown"]
+    recs = [(atoms, r) for atoms, r in rows if r[0] == "rec"]
+    if recs:
+        rec = []
+        for atoms, r in recs:
+            tgt = []
+            for pos, op in enumerate(r[1], 1):
+                if op[0] == "same":
+                    tgt.append(kinds[op[1]])
+                elif op[0] == "num":
+                    tgt.append("Number")
+                elif op[0] == "str-of":
+                    tgt.append("String")
+                elif op[0] == "conv":
+                    tgt.append(op[1])
+                else:
+                    tgt.append("?")
+            rec.append({"target": tuple(tgt), "operands": r[1], "atoms": atoms, "site": r[2]})
+        others = [(atoms, r) for atoms, r in rows if r[0] != "rec"]
+        o.detail["rec"] = rec
+        kind = "REC:" + "|".join("(%s,%s)" % t for t in sorted({x["target"] for x in rec}))
+        if unread and not any("?" in x["target"] for x in rec):
+            o.kind = "UNREAD(%s)" % unread[0][1]
+            return
+        extra = sorted({"CONST:%s" % str(r[1]).lower() for atoms, r in others if r[0] == "const"} | {r[0].upper() for atoms, r in others if r[0] not in ("const", "unread", "call", "int-test")})
+        if extra:
+            if unknown and not any("?" in x["target"] for x in rec):
+                o.kind = "UNREAD(%s)" % unknown[0][1]
+                return
+            kind += "|" + "|".join(extra)
+        o.kind = kind
+        return
+    if unread:
+        o.kind = "UNREAD(%s)" % unread[0][1]
+        return
+    consts = {r[1] for _, r in rows if r[0] == "const"}
+    nonconst = [(atoms, r) for atoms, r in rows if r[0] != "const"]
+    if not nonconst:
+        if len(consts) == 1 and None not in consts:
+            o.kind = "CONST:%s" % str(next(iter(consts))).lower()
+        elif unknown:
+            o.kind = "UNREAD(%s)" % unknown[0][1]
+        else:
+            o.kind = "OTHER(%s)" % "; ".join(o.detail["rows"])[:160]
+        return
+    fother = [r for _, r in nonconst if r[0] == "fcmp-other"]
+    if fother:
+        o.kind = "FCMP-OTHER(%s: %s)" % (fother[0][1], fother[0][2][:60])
+        return
+    if unknown:
+        o.kind = "UNREAD(%s)" % unknown[0][1]
+        return
+    readings = {repr(r) for _, r in nonconst}
+    if len(readings) == 1:
+        atoms, r = nonconst[0]
+        if r[0] in ("streq", "booleq"):
+            ok = all(not a for a, _ in nonconst) and not consts
+            name = {"streq": ("STREQ", "STRNE"), "booleq": ("BOOLEQ", "BOOLNE")}[r[0]][1 if r[1] else 0]
+            o.kind = name if ok else "OTHER(%s)" % "; ".join(o.detail["rows"])[:160]
+            return
+        if r[0] == "feq":
+            op, A, B = r[1], r[2], r[3]
+            need = {A, B}
+            good = A != B and A[1] != B[1]
+            # the comparison is made exactly when both conversions yield a number; everything else is false
+            for atoms, _ in nonconst:
+                st = {a[1]: a[2] for a in atoms if a[0] == "src"}
+                if set(st) != need or any(v != "Some" for v in st.values()) or any(a[0] != "src" for a in atoms):
+                    good = False
+            for atoms, rr in rows:
+                if rr[0] == "const":
+                    st = {a[1]: a[2] for a in atoms if a[0] == "src"}
+                    if rr[1] is not False or not (set(st) <= need) or "None" not in st.values() or any(a[0] != "src" for a in atoms):
+                        good = False
+            if good:
+                srcs = sorted(x[0] for x in need)
+                if srcs == ["as_f64", "as_f64"]:
+                    o.kind = "FEQ" if op == "Eq" else "F" + op
+                else:
+                    ok_sides = all((x[0] == "as_f64" and kinds[x[1]] == "Number") or (x[0] == "s2n" and kinds[x[1]] == "String") for x in need) and srcs == ["as_f64", "s2n"]
+                    o.kind = ("NUMSTR" if op == "Eq" else "NUMSTR:" + op) if ok_sides else "OTHER(%s)" % "; ".join(o.detail["rows"])[:160]
+                return
+    o.kind = "OTHER(%s)" % "; ".join(o.detail["rows"])[:200]
